@@ -1,13 +1,14 @@
 import ScyllaVerif.Model.Util
 import ScyllaVerif.Model.Sharding
 import ScyllaVerif.Model.C11Connect
+import ScyllaVerif.Model.C11PoolAttempt
 /-! Line-protocol driver for C11.  Input: `<case>\t<implementation output>`; output: the model's line.
 For the nondeterministic operations (`iter`, `draw`, `iterpub`, `drawpub`: a random pivot / index; `conn`: the pivot of
 the iterator the loop walks; `sess`: which shard the pool's first connection lands on) the model runs as a *checker*: it
 echoes the implementation's line iff that line is producible by some random choice, else prints `REJECT …`.
 `skip …` (the environment did not allow a network case: nothing was judged) is echoed. -/
 namespace ScyllaVerif.Drive.C11
-open ScyllaVerif.Util ScyllaVerif.Sharding ScyllaVerif.C11Connect
+open ScyllaVerif.Util ScyllaVerif.Sharding ScyllaVerif.C11Connect ScyllaVerif.C11PoolAttempt
 
 /-- A SUPPORTED entry word: `-` = key absent, `e` = empty value list, `""` = the empty string, else the first value
 itself (the harness appends a second value, which must be ignored). -/
@@ -65,6 +66,38 @@ def sessCheck (n lo hi : Nat) (reuse : Bool) (inuse taken : List Nat) (impl : St
         | none => (false, false))
     if judged.all (·.1) && (judged.filter (·.2)).length ≤ 1 then impl
     else "REJECT a-shard-with-a-free-port-has-no-connection-from-the-configured-range"
+  | _ => "REJECT unparsable"
+
+/-- `sessx`: a session whose configured range starves some shard. Per shard the source port of the pool's live
+connection from the configured range (`x`: none), then `outside k` - the number of connections whose source port is
+neither in the configured range nor the operating system's choice. The model (`Model/C11PoolAttempt.lean`): for every
+shard the refiller's attempt is `startOpening` = `shardAware s n`, run over the CONFIGURED range; a port word must be
+the `connected` result of that attempt for some pivot; a shard whose attempt can only answer `noSourcePort` is followed
+by a plain attempt (`followUp`) and has no port; the attempt and its follow-up bind nothing outside the range
+(`chainTried`), so `outside` is 0. (Which shards are served by plain connections is the node's choice: not judged.) -/
+def sessxCheck (n lo hi : Nat) (reuse : Bool) (inuse taken : List Nat) (impl : String) : String :=
+  let f := scripted reuse inuse taken []
+  let cfg : PortCfg := ⟨lo, hi⟩
+  match words impl with
+  | "skip" :: _ => impl
+  | ["shards", l, "outside", k] =>
+    let ws := l.splitOn ","
+    if ws.length != n then "REJECT expected-one-entry-per-shard" else
+    let ok := (List.range n).zip ws |>.all (fun (s, w) =>
+      let a := startOpening (some n) (some 0) (some s)
+      let k := (ports n s lo hi).length
+      let results := (List.range (max k 1)).map (fun pivot => runAttempt cfg a pivot f)
+      let tried := (List.range (max k 1)).flatMap (fun pivot => chainTried cfg a pivot f)
+      tried.all (fun p => lo ≤ p && p ≤ hi) &&
+      (if w == "x" then true
+       else match w.toNat? with
+        | some p => results.contains (some (.connected p))
+        | none => false) &&
+      -- a starved shard: the only result is NoSourcePortForShard, followed by a plain attempt
+      (results.all (fun r => r == some .noSourcePort) → (w == "x" && results.all (fun r => followUp a r == some .plain))))
+    if !ok then "REJECT a-port-word-is-not-a-result-of-the-attempt-over-the-configured-range"
+    else if k != "0" then "REJECT the-driver-binds-no-source-port-outside-the-configured-range"
+    else impl
   | _ => "REJECT unparsable"
 
 /-- A long port list in a REJECT line: its length and its first elements. -/
@@ -196,6 +229,15 @@ def run (case impl : String) : String :=
           if ok then impl else "REJECT a-filled-in-shard-must-be-below " ++ natList (ks.map (fun k => fillCount (if k == 0 then none else some k)))
         | _ => "REJECT unparsable"
       | _, _ => "bad-case"
+    | ["poolx", n, lo, hi, reuse, inuse, taken] =>
+      -- the bare pool against a node with a shard-aware listener of its own: judged like `sessx`
+      match n.toNat?, lo.toNat?, hi.toNat?, reuse.toNat?, parseNatList inuse, parseNatList taken with
+      | some n, some lo, some hi, some reuse, some inuse, some taken => sessxCheck n lo hi (reuse != 0) inuse taken impl
+      | _, _, _, _, _, _ => "bad-case"
+    | ["sessx", n, lo, hi, reuse, inuse, taken] =>
+      match n.toNat?, lo.toNat?, hi.toNat?, reuse.toNat?, parseNatList inuse, parseNatList taken with
+      | some n, some lo, some hi, some reuse, some inuse, some taken => sessxCheck n lo hi (reuse != 0) inuse taken impl
+      | _, _, _, _, _, _ => "bad-case"
     | ["sess", n, lo, hi, reuse, inuse, taken] =>
       match n.toNat?, lo.toNat?, hi.toNat?, reuse.toNat?, parseNatList inuse, parseNatList taken with
       | some n, some lo, some hi, some reuse, some inuse, some taken => sessCheck n lo hi (reuse != 0) inuse taken impl
